@@ -205,6 +205,23 @@ theorem resolveNames_unknown (table : List (String × List String)) (names : Lis
   rw [filter_alias_nil table x (h x hx)]
   rfl
 
+/-- names-major resolution keeps the user's order: when every name resolves to exactly its canonical
+criterion, the k-th resolved criterion is the canonical name of the k-th name given -/
+theorem resolveNames_user_order (table : List (String × List String)) (names : List String)
+    (h : ∀ x ∈ names, (table.filter fun e => e.2.contains x).map (·.1) = (canonOf table x).toList ∧
+      (canonOf table x).isSome = true) :
+    (resolveNames table names).map some = names.map (canonOf table) := by
+  induction names with
+  | nil => simp [resolveNames]
+  | cons x xs ih =>
+    have hx := h x (by simp)
+    have ih' := ih (fun y hy => h y (by simp [hy]))
+    unfold resolveNames at ih' ⊢
+    rw [List.flatMap_cons, List.map_append, ih', hx.1]
+    cases hc : canonOf table x with
+    | none => simp [hc] at hx
+    | some c => simp [hc]
+
 /-! ### any / all over paired lists -/
 
 theorem any_zipWith_le {K : Type} [LinearOrder K] (c t : List K) :
